@@ -368,7 +368,8 @@ func newEnv(t failer, rec *ev.Rec, tag string, maxFile uint32) *env {
 func (e *env) cleanup() {
 	if e.db != nil {
 		done := make(chan struct{})
-		go func() { defer close(done); _ = e.db.Close() }()
+		db := e.db
+		go func() { defer close(done); _ = db.Close() }()
 		select {
 		case <-done:
 		case <-time.After(3 * time.Second): // a tx left open by a failing case: do not hang
@@ -1218,6 +1219,28 @@ func (e *env) checkCommitted(what string) {
 			}
 			e.failf(sig, "%s: BeenPruned()=%v, model (a committed PruneBlocks removed blocks)=%v; block files on disk: %v", what, pruned, e.m.Committed.Pruned, files)
 		}
+	}
+}
+
+// probeCommitted is the cheap form of checkCommitted: one generated bucket
+// (keys, values, order) and one generated block are compared.
+func (e *env) probeCommitted(t *rapid.T, what string) {
+	mt, _ := e.m.Begin(false)
+	defer mt.Rollback()
+	ps := allPaths(mt)
+	path := ps[rapid.IntRange(0, len(ps)-1).Draw(t, "probePath")]
+	bi := rapid.IntRange(0, len(e.pool)-1).Draw(t, "probeBlock")
+	err := e.db.View(func(tx database.Tx) error {
+		p := &txPair{real: tx, m: mt, lost: map[kvmodel.Hash]bool{}, id: -1}
+		n := len(e.log)
+		e.apply(p, Op{K: "foreach", Path: path, N: -1})
+		e.apply(p, Op{K: "foreachb", Path: path, N: -1})
+		e.apply(p, Op{K: "fetch", B: []int{bi}})
+		e.log = e.log[:n]
+		return nil
+	})
+	if err != nil {
+		e.failf("", "%s: View failed: %v", what, err)
 	}
 }
 
